@@ -102,7 +102,8 @@ func (runInfo *runInfoStruct) freezeOperands(expr ast.Expr) (ast.Expr, bool) {
 			return nil, false
 		}
 		frozen := *expr
-		frozen.Expr = &ast.LiteralExpr{Literal: runInfo.rv}
+		// the pointer is a value: the one read now, not whatever the slot it was read from holds later
+		frozen.Expr = &ast.LiteralExpr{Literal: detachValue(runInfo.rv)}
 		return &frozen, true
 	case *ast.ParenExpr:
 		sub, ok := runInfo.freezeOperands(expr.SubExpr)
